@@ -89,7 +89,15 @@ fn part_b(depth: usize, roots_w: usize) -> (explore::Stats, Acc) {
             acc.inc("law_checks");
             if present.contains(&bind::dg(x)) {
                 match catch(|| e.add_assertion_envelope(x.clone())) {
-                    Ok(Ok(r)) => if r.to_cbor_data() != b { acc.viol("C07|add-present|changed", "adding an assertion already present changed the envelope", format!("b/{}/add-present({n})", desc()), json!({"envelope": hex::encode(&b)})) } else { acc.inc("add_present_noop") },
+                    // present IN THE SAME FORM: nothing may change. Present only in another form of the same digest (an elided, encrypted or
+                    // compressed placeholder): the statement does not say which form survives - same digest and same number of assertions
+                    Ok(Ok(r)) => {
+                        let xd = bind::dg(x); let xo = bind::observe(x);
+                        let same_form = e.assertions().iter().filter(|a| bind::dg(a) == xd).any(|a| bind::observe(a) == xo);
+                        if same_form { if r.to_cbor_data() != b { acc.viol("C07|add-present|changed", "adding an assertion already present changed the envelope", format!("b/{}/add-present({n})", desc()), json!({"envelope": hex::encode(&b)})) } else { acc.inc("add_present_noop") } }
+                        else if bind::dg(&r) != bind::dg(e) || r.assertions().len() != e.assertions().len() { acc.viol("C07|add-present|other-form|digest-or-count-changed", "adding an assertion whose digest is already present in another form changed the digest or the number of assertions", format!("b/{}/add-present({n})", desc()), json!({"envelope": hex::encode(&b)})) }
+                        else { acc.inc("add_present_other_form_digest_kept") }
+                    }
                     Ok(Err(_)) => acc.viol("C07|add-present|refused", "adding an assertion already present was refused", format!("b/{}/add-present({n})", desc()), json!({"envelope": hex::encode(&b)})),
                     Err(_) => acc.inc("panics_counted_under_C16"),
                 }
@@ -217,6 +225,8 @@ fn part_f(th: bool) -> Acc {
         let det = |r: &Envelope| json!({"shape": wn, "assertions_expected": n, "assertions_got": r.assertions().len()});
         // every present assertion re-added through each API: no change
         for (i, a) in aenv.iter().enumerate() {
+            // quick tier: for nodes with more than 24 assertions the first eight, the last eight and every (n/8)-th one
+            if !th && n > 24 && !(i < 8 || i + 8 >= n || i % (n / 8) == 0) { continue }
             acc.inc("law_checks");
             let rs: Vec<(&str, Option<Envelope>)> = vec![
                 ("add_assertion_envelope", catch(|| e.add_assertion_envelope(a.clone()).ok()).ok().flatten()),
@@ -270,7 +280,7 @@ pub fn run(ctx: &Ctx) -> i32 {
     let evals = acc.get("assemblies") * 3 + acc.get("law_checks") + acc.get("collection_instances");
     let cov = json!({"states": st.states, "transitions": st.transitions, "traces_validated_against_impl": st.sequences + acc.get("assemblies") * 3,
         "evaluations": evals,
-        "rule": "(f) on nodes with 22..256 assertions: re-adding each present assertion through four APIs, remove / remove-add / remove-twice for each, three repetition orders, replace_subject, replace by itself - all against the model bytes; (a) every insertion sequence (with repetition) up to the length bound over a 7-element assertion pool x 5 subjects x 3 add APIs, grouped by assertion set: all members byte-identical and equal to the model encoding; (b-d) add-present / add-remove / wrap-unwrap laws and receiver immutability at every state of the BFS; (e) collections in every insertion order in fresh instances; distinct = (subject, assertion set) / (collection type, contents)",
+        "rule": "(b') an assertion present only in ANOTHER FORM of the same digest (placeholder vs plain): adding it keeps digest and count, which form survives is left open; (f) on nodes with 1..72 (thorough 140) and 127..256 assertions: re-adding each present assertion (quick tier, beyond 24 assertions: the first eight, the last eight and every (n/8)-th) through four APIs, remove / remove-add / remove-twice for each, three repetition orders, replace_subject, replace by itself - all against the model bytes; (a) every insertion sequence (with repetition) up to the length bound over a 7-element assertion pool x 5 subjects x 3 add APIs, grouped by assertion set: all members byte-identical and equal to the model encoding; (b-d) add-present / add-remove / wrap-unwrap laws and receiver immutability at every state of the BFS; (e) collections in every insertion order in fresh instances; distinct = (subject, assertion set) / (collection type, contents)",
         "exhaustive": true,
         "bounds": {"insertion_sequence_length": maxlen, "pool": 7, "bfs_depth": depth, "collection_elements": maxn},
         "bfs": {"states_per_depth": st.per_depth, "merged": st.merged, "refused": st.refused, "complete_sequences": st.sequences},
